@@ -63,6 +63,7 @@ func init() {
 		if a.ok {
 			c.rulesC04(a, c.lockAnalysis())
 			c.rulesC04dup()
+			c.rulesR5dupset()
 			c.rulesC04drop()
 			c.rulesR3queue()
 			c.rulesR4qdone()
@@ -91,6 +92,7 @@ func init() {
 		if a.ok {
 			c.rulesC07(a)
 			c.rulesR3auto()
+			c.rulesR5auto(a)
 		}
 	})
 	register("C14", propInfo{
@@ -145,6 +147,7 @@ func init() {
 			c.rulesR4safeclose()
 			c.rulesR4hlock()
 			c.rulesR4endsend(c.lockAnalysis())
+			c.rulesR5misc("C13", a)
 			c.rulesR3misc("C13")
 			c.rulesR3misc("C06") // C06.close: a waiter collected but never closed survives Dispose
 			c.rulesC13send(c.lockAnalysis())
@@ -166,6 +169,7 @@ func init() {
 			c.rulesR3mark()
 			c.rulesR3neg()
 			c.rulesR4space()
+			c.rulesR5misc("C08", a)
 			c.rule("C08.imm", "fault recovery never mutates in place a slice aliasing Machine.activeStates (the old set is needed to decide which states tick during rollback)")
 			c.inPlaceAliasLint("C08.imm", a.fActive, []string{pm}, 5)
 		}
@@ -179,6 +183,7 @@ func init() {
 		Trusted:     commonTrusted,
 	}, func(c *Ctx) {
 		c.rulesC11([]string{pm, "pkg/graph", prpc, "pkg/helpers"})
+		c.rulesR5recorder([]string{pm, "pkg/graph", prpc, "pkg/helpers"})
 	})
 }
 
@@ -195,6 +200,7 @@ func init() {
 			c.rulesC02grow()
 			c.rulesR3resolver()
 			c.rulesR4resolver()
+			c.rulesR5misc("C02", a)
 			c.rulesR3batch3("C02")
 		}
 	})
@@ -210,6 +216,7 @@ func init() {
 		c.rulesC09x()
 		c.rulesR3push()
 		c.rulesR4nochange()
+		c.rulesR5misc("C09", nil)
 		c.rulesR3rpc2()
 	})
 	register("C10", propInfo{
@@ -232,6 +239,7 @@ func init() {
 		c.rulesC17()
 		c.rulesR4histsib()
 		c.rulesR4lastpass()
+		c.rulesR5histbreak()
 		c.rulesC17ord()
 		c.rulesR3misc("C17")
 		c.rulesR3misc("C14") // C14.net: a history bound to the mirror records what the tracers are told
@@ -246,6 +254,7 @@ func init() {
 	}, func(c *Ctx) {
 		c.rulesC18()
 		c.rulesR4callord()
+		c.rulesR5dupset()
 		c.rulesC18dflt()
 		c.rulesC18flat()
 		c.rulesR3batch3("C18")
@@ -272,6 +281,7 @@ func init() {
 			c.rulesC02grow()
 			c.rulesR3resolver()
 			c.rulesR4resolver()
+			c.rulesR5misc("C02", a)
 			c.rulesR3batch3("C02")
 		}
 	})
@@ -307,6 +317,7 @@ func init() {
 		c.rulesC15()
 		c.rulesC15key()
 		c.rulesR4errmulti()
+		c.rulesR5misc("C15", nil)
 		c.rulesR3batch3("C15")
 	})
 }
@@ -321,6 +332,8 @@ func init() {
 		c.rulesC16buf()
 		c.rulesC16back()
 		c.rulesR4outbox()
+		c.rulesR5filt()
+		c.rulesR5txmiss()
 		c.rulesR3batch3("C16")
 	})
 }
